@@ -661,7 +661,7 @@ func c15R2(c *Ctx) {
 		RK = "C15.R2.link-parser"
 	)
 	c.Expect(RL, 14) // 3 loops × (url-advances, exit-iff-error, only-no-link-ends, page-call-every-iteration) + 2 × last-first-page-only
-	c.Expect(RP, 15)
+	c.Expect(RP, 18)
 	c.Expect(RK, 3)
 	if c.P.Obj(c13PkgRemote, "errNoLink") == nil {
 		c.LostAnchor(RL, c15NoLink+" (end-of-pages sentinel)")
@@ -818,6 +818,30 @@ func c15R2(c *Ctx) {
 			}
 		}
 		c.Check(RP, pn+"|next-url-from-link", pg.Pos(), okNext, "the URL handed back is the link parser's result (or empty on failure)")
+		// the end-of-listing sentinel comes only from the link parser applied to this response, and
+		// no success return bypasses the link parser
+		linkErr := map[ssa.Value]bool{}
+		for _, lk := range linkCalls {
+			for a := range c13AliasSet(ErrOf(lk)) {
+				linkErr[a] = true
+			}
+		}
+		okSent, whySent := true, ""
+		for _, a := range RetAtoms(pg, 1) {
+			if sentinelName(a.Val) == c15NoLink && !linkErr[a.Val] {
+				okSent = false
+				whySent = fmt.Sprintf("the page function itself returns errNoLink (at %s): the listing ends although this response's Link header was never consulted, later pages are dropped silently", c.P.Pos(a.Ret.Pos()))
+			}
+		}
+		if okSent {
+			sb, si := c13AfterSite(site)
+			if bad := c13SuccessEscapes(pg, sb, si, newCut(), linkErr); bad != nil {
+				okSent = false
+				whySent = fmt.Sprintf("the return at %s (error %s) can succeed without the link parser's verdict: the loop would continue with an empty URL or stop without following the Link header", c.P.Pos(bad.Ret.Pos()), describe(bad.Val))
+			}
+		}
+		c.Check(RP, pn+"|end-of-listing-only-from-link-parser", pg.Pos(), okSent,
+			ifelse(okSent, "every return after the exchange whose error may be nil or errNoLink returns the link parser's own error result", whySent))
 		// query of the given URL is preserved (same helper as C13.R4)
 		_, badQ, whyQ := c13QueryStores(pg)
 		okQ := badQ == nil
@@ -1169,6 +1193,14 @@ var c15Mutants = []Mutant{
 	{Name: "callback-error-dropped", File: "registry/remote/repository.go",
 		Old:    "\tif err := fn(page.Tags); err != nil {\n\t\treturn \"\", err\n\t}\n\n\treturn parseLink(resp)",
 		New:    "\tfn(page.Tags)\n\n\treturn parseLink(resp)",
+		Expect: "C15.R2.page-function"},
+	{Name: "empty-filtered-page-ends-listing", File: "registry/remote/repository.go",
+		Old:    "\tif len(referrers) > 0 {\n\t\tif err := fn(referrers); err != nil {\n\t\t\treturn \"\", err\n\t\t}\n\t}\n\treturn parseLink(resp)",
+		New:    "\tif len(referrers) == 0 {\n\t\t// nothing to report\n\t\treturn \"\", errNoLink\n\t}\n\tif err := fn(referrers); err != nil {\n\t\treturn \"\", err\n\t}\n\treturn parseLink(resp)",
+		Expect: "C15.R2.page-function"},
+	{Name: "empty-tags-page-returns-early", File: "registry/remote/repository.go",
+		Old:    "\tif err := fn(page.Tags); err != nil {\n\t\treturn \"\", err\n\t}\n\n\treturn parseLink(resp)",
+		New:    "\tif len(page.Tags) == 0 {\n\t\treturn \"\", nil\n\t}\n\tif err := fn(page.Tags); err != nil {\n\t\treturn \"\", err\n\t}\n\n\treturn parseLink(resp)",
 		Expect: "C15.R2.page-function"},
 	{Name: "link-malformed-ends-listing", File: "registry/remote/utils.go",
 		Old:    "\tif link[0] != '<' {\n\t\treturn \"\", fmt.Errorf(\"invalid next link %q: missing '<'\", link)\n\t}",
